@@ -178,13 +178,14 @@ struct Real {
     g0: Option<SlotGuard<Child0>>,
     g1: Option<SlotGuard<Child1>>,
     force: Vec<ForceFlushGuard>,
+    legacy_open: bool,
 }
 
 impl Real {
     fn new() -> Self {
         let sink = CountingSink::new();
         let parent = ParentM { x: 1, y: 2, ..Default::default() }.append_on_drop(sink.clone());
-        Real { sink, parent: Some(parent), g0: None, g1: None, force: vec![] }
+        Real { sink, parent: Some(parent), g0: None, g1: None, force: vec![], legacy_open: false }
     }
     /// returns Some(opened?) for Open ops
     fn apply(&mut self, op: Op, m: &Model) -> Option<bool> {
@@ -193,7 +194,22 @@ impl Real {
                 let p = self.parent.as_mut().unwrap();
                 let mode = if wait { OnParentDrop::Wait(p.flush_guard()) } else { OnParentDrop::Discard };
                 if i == 0 {
-                    match p.s0.open(mode) {
+                    // every other sequence opens slot 0 the old way: the deprecated (still public)
+                    // open_slot(), which defaults to discard mode, plus delay_flush() for wait mode
+                    #[allow(deprecated)]
+                    let opened = if self.legacy_open {
+                        let g = p.s0.open_slot();
+                        match (g, mode) {
+                            (Some(mut g), OnParentDrop::Wait(fg)) => {
+                                g.delay_flush(fg);
+                                Some(g)
+                            }
+                            (g, _) => g,
+                        }
+                    } else {
+                        p.s0.open(mode)
+                    };
+                    match opened {
                         Some(mut g) => {
                             g.v0 = 10;
                             self.g0 = Some(g);
@@ -280,6 +296,7 @@ fn content(a: &Appended) -> (Option<u64>, Option<u64>, Option<u64>, Option<u64>)
 fn run_sequential(ops: &[Op], rep: &Report) -> bool {
     let mut m = Model::new();
     let mut r = Real::new();
+    r.legacy_open = ops.len() % 2 == 1;
     let mut all: Vec<Op> = ops.to_vec();
     let mut i = 0;
     loop {
@@ -302,7 +319,7 @@ fn run_sequential(ops: &[Op], rep: &Report) -> bool {
         let op = all[i];
         let expect_open = m.apply(op);
         let got = r.apply(op, &m);
-        let witness = |what: &str, extra: vcommon::serde_json::Value| json!({"what": what, "ops": format!("{all:?}"), "after_op_index": i, "op": format!("{op:?}"), "extra": extra, "model": format!("{m:?}")});
+        let witness = |what: &str, extra: vcommon::serde_json::Value| json!({"what": what, "ops": format!("{all:?}"), "after_op_index": i, "slot0_opened_through_deprecated_open_slot": r.legacy_open, "op": format!("{op:?}"), "extra": extra, "model": format!("{m:?}")});
         match (op, got) {
             (Op::Open(..), Some(opened)) if opened != expect_open => {
                 rep.violation(if opened { "slot-opened-twice" } else { "slot-open-refused" }, witness("open() result differs from 'a slot can be opened at most once'", json!({"opened": opened})));
